@@ -1175,3 +1175,98 @@ pub proof fn lemma_moov_roundtrip(d: Seq<u8>, p: int, b: MoovBox, b2: MoovBox)
         lemma_box_here(s, moov_t(b, p, i), trak_len(b.traks@[i]), 0x7472616b);
     }
 }
+
+// ---- the finished file: ftyp, the media data (32- or 64-bit size form), the movie box written last (the shape mw_final describes)
+pub proof fn lemma_ftyp_starts_n(b: FtypBox, n: int)
+    requires 0 <= n
+    ensures is_prefix(hdr_bytes(ftyp_len(b) as u64, 0x66747970), ftyp_prefix(b, n))
+    decreases n
+{
+    if n > 0 { lemma_ftyp_starts_n(b, n - 1); }
+}
+/// what the media-data header says after update_mdat_size: `size` bytes from mdat_pos, compact or 64-bit form
+pub open spec fn mdat_hdr_ok(x: Seq<u8>, mdat_pos: int, size: int) -> bool {
+    if size > 0xffff_ffff { be32(x, mdat_pos) == 1 && be32(x, mdat_pos + 4) == 0x6d646174 && be64(x, mdat_pos + 8) == size }
+    else { be32(x, mdat_pos) == size && be32(x, mdat_pos + 4) == 0x6d646174 }
+}
+/// one step of the top-level walk
+pub proof fn lemma_top_last_of_step(s: Seq<u8>, p: int, end: int, ty: BoxType, acc: Option<int>)
+    requires p < end, child_size(s, p) != 0, child_next(s, p) > p
+    ensures top_last_of(s, p, end, ty, acc) == top_last_of(s, child_next(s, p), end, ty, if child_name(s, p) == ty { Some(p) } else { acc })
+{}
+#[verifier::rlimit(300)]
+pub proof fn lemma_file_roundtrip(x: Seq<u8>, start: int, mdat_pos: int, pn: int, ftyp: FtypBox, moov: MoovBox, moov2: MoovBox)
+    requires
+        0 <= start, ftyp_wire(ftyp), mdat_pos == start + ftyp_len(ftyp), mdat_pos + 16 <= pn, x.len() == pn, pn < 0x4000_0000_0000_0000,
+        forall|j: int| 0 <= j < ftyp_bytes(ftyp).len() ==> x[start + j] == ftyp_bytes(ftyp)[j],
+        mdat_hdr_ok(x, mdat_pos, pn - mdat_pos),
+        moov_muxed(moov), moov_same_norm(moov, moov2)
+    ensures ({ let out = wr(x, pn, moov_bytes(moov));
+               &&& out.len() == pn + moov_len(moov)
+               &&& rel_moov(out, Some(moov2), top_last_of(out, start, out.len() as int, BoxType::MoovBox, None))
+               &&& rel_ftyp(out, Some(ftyp), top_last_of(out, start, out.len() as int, BoxType::FtypBox, None)) })
+{
+    broadcast use lemma_wr_len, lemma_be_bytes_len, lemma_ftyp_prefix_len;
+    let mb = moov_bytes(moov);
+    let out = wr(x, pn, mb);
+    lemma_moov_bytes_len(moov);
+    lemma_moov_roundtrip(x, pn, moov, moov2);
+    let end = pn + moov_len(moov);
+    assert(out.len() == end);
+    // bytes before pn are those of x
+    assert forall|i: int| 0 <= i < pn implies out[i] == x[i] by {}
+    // ftyp at start
+    let fb = ftyp_bytes(ftyp);
+    assert(fb.len() == ftyp_len(ftyp));
+    assert forall|j: int| 0 <= j < fb.len() implies out[start + j] == fb[j] by {}
+    lemma_wr_same(out, start, fb);
+    lemma_ftyp_roundtrip(out, start, ftyp);
+    lemma_ftyp_starts_n(ftyp, ftyp.compatible_brands@.len() as int);
+    lemma_hdr_of_bytes(out, start, fb, ftyp_len(ftyp), 0x66747970);
+    assert(box_here(out, start, ftyp_len(ftyp), 0x66747970));
+    lemma_box_here(out, start, ftyp_len(ftyp), 0x66747970);
+    // mdat at mdat_pos, up to pn
+    let msz = pn - mdat_pos;
+    assert(be32(out, mdat_pos) == be32(x, mdat_pos) && be32(out, mdat_pos + 4) == be32(x, mdat_pos + 4)
+           && be32(out, mdat_pos + 8) == be32(x, mdat_pos + 8) && be32(out, mdat_pos + 12) == be32(x, mdat_pos + 12));
+    assert(child_next(out, mdat_pos) == pn && child_size(out, mdat_pos) != 0 && child_name(out, mdat_pos) == BoxType::MdatBox);
+    // moov at pn
+    lemma_box_here(out, pn, moov_len(moov), 0x6d6f6f76);
+    // the two walks
+    lemma_top_last_of_step(out, start, end, BoxType::MoovBox, None);
+    lemma_top_last_of_step(out, mdat_pos, end, BoxType::MoovBox, None);
+    lemma_top_last_of_step(out, pn, end, BoxType::MoovBox, None);
+    assert(top_last_of(out, start, end, BoxType::MoovBox, None) == Some(pn));
+    lemma_top_last_of_step(out, start, end, BoxType::FtypBox, None);
+    lemma_top_last_of_step(out, mdat_pos, end, BoxType::FtypBox, Some(start));
+    lemma_top_last_of_step(out, pn, end, BoxType::FtypBox, Some(start));
+    assert(top_last_of(out, start, end, BoxType::FtypBox, None) == Some(start));
+}
+
+/// update_mdat_size on a stream whose media-data header placeholder is in place (type 'mdat' at mdat_pos + 4, 16 bytes reserved)
+/// yields the header that the file lemma asks for, and touches nothing outside those 16 bytes
+pub proof fn lemma_mdat_patch(dd: Seq<u8>, mdat_pos: int, size: int)
+    requires 0 <= mdat_pos, mdat_pos + 16 <= dd.len(), 0 <= size < 0x1_0000_0000_0000_0000, be32(dd, mdat_pos + 4) == 0x6d646174
+    ensures ({ let x = mdat_size_patch(dd, mdat_pos, size);
+               &&& mdat_hdr_ok(x, mdat_pos, size) && x.len() == dd.len()
+               &&& forall|i: int| 0 <= i < dd.len() && !(mdat_pos <= i < mdat_pos + 16) ==> x[i] == dd[i] })
+{
+    broadcast use lemma_wr_len, lemma_be_bytes_len;
+    let x = mdat_size_patch(dd, mdat_pos, size);
+    if size > 0xffff_ffff {
+        let d1 = wr(dd, mdat_pos, be_bytes(1, 4));
+        assert(Seq::<u8>::empty() + be_bytes(1, 4) =~= be_bytes(1, 4));
+        lemma_prefix_refl(be_bytes(1, 4));
+        lemma_rd4(dd, mdat_pos, Seq::<u8>::empty(), 1, be_bytes(1, 4));
+        assert(Seq::<u8>::empty() + be_bytes(size as nat, 8) =~= be_bytes(size as nat, 8));
+        lemma_prefix_refl(be_bytes(size as nat, 8));
+        lemma_rd8(d1, mdat_pos + 8, Seq::<u8>::empty(), size as nat, be_bytes(size as nat, 8));
+        assert forall|i: int| 0 <= i < dd.len() && !(mdat_pos + 8 <= i < mdat_pos + 16) implies x[i] == d1[i] by {}
+        assert forall|i: int| 0 <= i < dd.len() && !(mdat_pos <= i < mdat_pos + 4) implies d1[i] == dd[i] by {}
+    } else {
+        assert(Seq::<u8>::empty() + be_bytes(size as nat, 4) =~= be_bytes(size as nat, 4));
+        lemma_prefix_refl(be_bytes(size as nat, 4));
+        lemma_rd4(dd, mdat_pos, Seq::<u8>::empty(), size as nat, be_bytes(size as nat, 4));
+        assert forall|i: int| 0 <= i < dd.len() && !(mdat_pos <= i < mdat_pos + 4) implies x[i] == dd[i] by {}
+    }
+}
